@@ -23,6 +23,13 @@ def cb(v):
 def gen_cloud(rng, kind=None):
     kind = kind or str(rng.choice(['lattice', 'lattice_noise', 'two_lattices', 'random', 'small_exact', 'tight_limits', 'limit_edge']))
     la, lb = rng.uniform(18, 35, 2)
+    fine = False
+    if kind == 'small_exact' and rng.random() < 0.5:
+        # a coarse candidate vector would miss the far lattice points: long lattice vectors at the default tolerance, or a tight tolerance
+        if rng.integers(0, 2):
+            la, lb = rng.uniform(100, 250, 2)
+        else:
+            fine = True
     ang = rng.uniform(0, np.pi)
     d = np.deg2rad(rng.uniform(60, 120))
     a = la * np.array([np.sin(ang), np.cos(ang)])
@@ -83,6 +90,8 @@ def gen_cloud(rng, kind=None):
         params.update(min_points=5, max_delta=float(rng.choice([0.4, 0.9, 1.1]) * min(la, lb)), min_delta=float(rng.choice([0.0, 3.0])))
     if kind == 'small_exact':
         params.update(tolerance=3.0, min_match=3, min_delta=0.0, max_delta=np.inf, min_angle=np.pi / 10, min_points=10)
+        if fine:
+            params.update(tolerance=float(rng.choice([0.5, 0.3, 1.0])))
     use_cand = bool(rng.integers(0, 3) == 0)
     candv = [a + rng.normal(0, 0.2, 2), b + rng.normal(0, 0.2, 2), a + b] if use_cand else None
     argmode = 'all'
